@@ -150,6 +150,33 @@ func runC06(c *core.Ctx, o Options) {
 		}
 		for _, t := range s.tr.Traces(r.Fn, m.AllStates) {
 			for i, e := range t.Events {
+				if e.Kind == "state" && e.Name == "WaitingLogonAnswer" {
+					// the state in which the next Logon is taken for the answer to the session's own Logon — no parameter check, no
+					// callback, no reply — is entered only where the session sends that Logon
+					a := aggs[e.Instr]
+					if a == nil {
+						a = &siteAgg{ob: c.Ob("T1", r.Name(), "transition to "+e.Name+" in "+an.NameOf(e.Fn), e.Pos)}
+						aggs[e.Instr] = a
+						order = append(order, e.Instr)
+					}
+					sendsLogon := false
+					for _, e2 := range t.Events {
+						if e2.Kind == "send" && len(e2.Kinds) == 1 && e2.Kinds[0] == "Logon" {
+							sendsLogon = true
+						}
+						if e2.Kind == "callback" && strings.HasPrefix(e2.Name, "logonRequest") {
+							sendsLogon = true // the application's own logon request (SetLogonRequest) stands for the send
+						}
+					}
+					last := t.Events[len(t.Events)-1]
+					if sendsLogon || (last.Kind == "return" && last.Ret != "nil" && last.Ret != "") {
+						a.good++
+						a.ob.Fact("entered where the session sends its own Logon")
+					} else {
+						a.bad = append(a.bad, "WaitingLogonAnswer is entered on a path that does not send the session's own Logon: the next Logon of any content is then accepted without parameter check, callback or reply; path: "+traceStr(t))
+					}
+					continue
+				}
 				if e.Kind != "state" || (e.To != SL && e.To != WT && e.To >= 0) {
 					continue
 				}
@@ -493,13 +520,25 @@ func runC06(c *core.Ctx, o Options) {
 	s.checkIsLoggedExact("T6")
 	s.checkRestingSide("T1")
 	s.checkRegisteredOnce("T1", true, "Logon")
+	s.checkApprovalIsTheCallbacks("T1")
 	// T1 (premise): the Logon is decoded first, from the handler's own input, into a fresh builder — decoded into the shared
 	// prototype, a Logon that lacks fields inherits them from the previous one
 	if lf := s.one(true, "Logon"); lf != nil {
 		s.checkParseFirst("T1", "Logon", lf, s.tr.Traces(lf, s.m.AllStates))
 	}
+	// T1 (premise): "well-formed" — a damaged Logon is seen as damaged: the integrity rules of C03 hold
+	c.RulePrefix = "T7"
+	integrityRules(c)
+	c.RulePrefix = ""
+	// T3 (premise): the Reject's RefSeqNum is what ValueByTag finds under the sequence-number tag — anchored, whole-tag lookups
+	if vbt := c.Func("fix", "ValueByTag"); vbt != nil {
+		n := needleCensus(c, "T3", []*ssa.Function{vbt})
+		c.Check(n >= 2, "T3", "ValueByTag", "anchored lookups found", vbt.Pos(), fmt.Sprint(n), "ValueByTag no longer searches with anchored needles")
+	}
+	c.Explanation += " T3 also: no refusal path resets or sets a sequence counter; premise: the anchored needles of ValueByTag (the Reject's RefSeqNum is looked up in the raw bytes)."
+	c.Explanation += " T1 also: WaitingLogonAnswer (where the next Logon is accepted unchecked as the answer to the session's own) is entered only on paths that send the session's own Logon. T7 premise: the integrity rules V1–V7 of C03 (a damaged Logon is not well-formed)."
 	c.Explanation += " T1 premise: the Logon is decoded first, from the handler's own input, into a fresh builder (shared with C07.G2/C16.J1)."
-	c.RuleMin = map[string]int{"M1": 3, "T1": 6, "T2": 4, "T3": 1, "T4": 1, "T5": 2, "T6": 1}
+	c.RuleMin = map[string]int{"M1": 3, "T1": 6, "T2": 4, "T3": 3, "T4": 1, "T5": 2, "T6": 1, "T7": 12}
 	c.MinObl = 17
 }
 
